@@ -60,6 +60,69 @@ theorem sanitize_clean (hs : Gen.cliSanitizes = true) (s : List RUnit) : Clean (
   rcases List.mem_flatMap.1 hr with ⟨u, _, hu⟩
   exact sanitizeUnit_clean hs u r hu
 
+theorem escLead_clean (r : Nat) : Clean (escLead r) := by
+  unfold escLead
+  split
+  · exact escByte_clean r
+  · intro x hx
+    simp only [List.mem_cons, List.mem_nil_iff, or_false] at hx
+    rcases hx with h | h | h | h | h | h
+    · subst h; decide
+    · subst h; decide
+    · subst h; exact hexLower_clean _ (Nat.mod_lt _ (by decide))
+    · subst h; exact hexLower_clean _ (Nat.mod_lt _ (by decide))
+    · subst h; exact hexLower_clean _ (Nat.mod_lt _ (by decide))
+    · subst h; exact hexLower_clean _ (Nat.mod_lt _ (by decide))
+
+theorem sanitizeLead_clean (hs : Gen.cliSanitizes = true) : ∀ s : List RUnit, Clean (sanitizeLead s)
+  | [] => by simp only [sanitizeLead]; exact sanitize_clean hs []
+  | .bad b :: rest => by simp only [sanitizeLead]; exact sanitize_clean hs _
+  | .rune r :: rest => by
+    simp only [sanitizeLead]
+    split
+    · exact clean_append (escLead_clean r) (sanitizeLead_clean hs rest)
+    · exact sanitize_clean hs _
+
+/-- a text that does not start with white space -/
+def NoLead (l : List Nat) : Prop := ∀ r, l.head? = some r → isSpaceRune r = false
+
+theorem escLead_head (r : Nat) : ∃ t, escLead r = 92 :: t := by
+  unfold escLead escByte
+  split <;> exact ⟨_, rfl⟩
+
+theorem sanitizeUnit_head (hs : Gen.cliSanitizes = true) (u : RUnit) (hu : ∀ r, u = .rune r → isSpaceRune r = false) :
+    ∃ x t, sanitizeUnit u = x :: t ∧ isSpaceRune x = false := by
+  cases u with
+  | bad b => exact ⟨92, [120, hexLower ((b / 16) % 16), hexLower (b % 16)], by simp [sanitizeUnit, hs, escByte], by decide⟩
+  | rune r =>
+    simp only [sanitizeUnit, hs, Bool.true_and]
+    split
+    · exact ⟨92, [120, hexLower ((r / 16) % 16), hexLower (r % 16)], by simp [escByte], by decide⟩
+    · exact ⟨r, [], rfl, hu r rfl⟩
+
+/-- with the escaping of leading blanks, what `sanitizeLead` writes never starts with white space -/
+theorem sanitizeLead_noLead (hs : Gen.cliSanitizes = true) (hl : Gen.cliEscapesLead = true) :
+    ∀ s : List RUnit, NoLead (sanitizeLead s)
+  | [] => by intro r h; simp [sanitizeLead, sanitize] at h
+  | .bad b :: rest => by
+    intro r h
+    obtain ⟨x, t, e, hx⟩ := sanitizeUnit_head hs (.bad b) (by intro r h; cases h)
+    simp only [sanitizeLead, sanitize, List.flatMap_cons, e, List.cons_append, List.head?_cons, Option.some.injEq] at h
+    exact h ▸ hx
+  | .rune r0 :: rest => by
+    intro r h
+    simp only [sanitizeLead, hl, Bool.true_and] at h
+    by_cases hsp : isSpaceRune r0 = true
+    · rw [if_pos hsp] at h
+      obtain ⟨t, e⟩ := escLead_head r0
+      rw [e] at h
+      simp only [List.cons_append, List.head?_cons, Option.some.injEq] at h
+      subst h; decide
+    · rw [if_neg hsp] at h
+      obtain ⟨x, t, e, hx⟩ := sanitizeUnit_head hs (.rune r0) (by intro r' h'; cases h'; simpa using hsp)
+      simp only [sanitize, List.flatMap_cons, e, List.cons_append, List.head?_cons, Option.some.injEq] at h
+      exact h ▸ hx
+
 /-! ### lines: (indent, content) pairs -/
 
 abbrev Line := Nat × List Nat
@@ -100,11 +163,11 @@ theorem spaces_add_two (n : Nat) : spaces n ++ [32, 32] = spaces (n + 2) := by
 
 def attrLinesOf (indent : Nat) : List (List RUnit × List RUnit) → List Line
   | [] => []
-  | (n, v) :: rest => (indent + 2, sanitize n ++ [58, 32] ++ sanitize v) :: attrLinesOf indent rest
+  | (n, v) :: rest => (indent + 2, sanitizeLead n ++ [58, 32] ++ sanitize v) :: attrLinesOf indent rest
 
 mutual
 def linesOf : UInfo → Nat → List Line
-  | .mk d as cs, indent => (indent, sanitize d) :: (attrLinesOf indent as ++ linesOfList cs (indent + 2))
+  | .mk d as cs, indent => (indent, sanitizeLead d) :: (attrLinesOf indent as ++ linesOfList cs (indent + 2))
 def linesOfList : List UInfo → Nat → List Line
   | [], _ => []
   | c :: cs, indent => linesOf c indent ++ linesOfList cs indent
@@ -122,7 +185,7 @@ theorem attrLinesOf_clean (hs : Gen.cliSanitizes = true) (indent : Nat) :
   | (n, v) :: rest => by
     simp only [attrLinesOf]
     refine allClean_cons ?_ (attrLinesOf_clean hs indent rest)
-    refine clean_append (clean_append (sanitize_clean hs n) ?_) (sanitize_clean hs v)
+    refine clean_append (clean_append (sanitizeLead_clean hs n) ?_) (sanitize_clean hs v)
     intro r hr
     simp at hr
     rcases hr with h | h <;> subst h <;> decide
@@ -150,7 +213,7 @@ mutual
 theorem linesOf_clean (hs : Gen.cliSanitizes = true) : (i : UInfo) → (d : Nat) → AllClean (linesOf i d)
   | .mk ds as cs, d => by
     simp only [linesOf]
-    exact allClean_cons (sanitize_clean hs ds)
+    exact allClean_cons (sanitizeLead_clean hs ds)
       (allClean_append (attrLinesOf_clean hs d as) (linesOfList_clean hs cs (d + 2)))
 theorem linesOfList_clean (hs : Gen.cliSanitizes = true) :
     (cs : List UInfo) → (d : Nat) → AllClean (linesOfList cs d)
@@ -256,6 +319,85 @@ theorem lines_eq_layout (hs : Gen.cliSanitizes = true) (i : UInfo) (d : Nat) :
   intro k h₁ h₂
   simp only [List.getElem_map]
   exact List.prefix_append _ _
+
+/-! ### exact indentation: after the structural indent, a line does not go on with white space -/
+
+def AllNoLead (ls : List Line) : Prop := ∀ p ∈ ls, NoLead p.2
+
+theorem noLead_append {a b : List Nat} (ha : NoLead a) (hb : a = [] → NoLead b) : NoLead (a ++ b) := by
+  cases a with
+  | nil => simpa using hb rfl
+  | cons x t => intro r h; exact ha r (by simpa using h)
+
+theorem attrLinesOf_noLead (hs : Gen.cliSanitizes = true) (hl : Gen.cliEscapesLead = true) (indent : Nat) :
+    ∀ as, AllNoLead (attrLinesOf indent as)
+  | [] => by intro p hp; cases hp
+  | (n, v) :: rest => by
+    intro p hp
+    simp only [attrLinesOf, List.mem_cons] at hp
+    rcases hp with rfl | hp
+    · simp only [List.append_assoc]
+      refine noLead_append (sanitizeLead_noLead hs hl n) (fun _ => ?_)
+      intro r h
+      simp only [List.cons_append, List.head?_cons, Option.some.injEq] at h
+      subst h; decide
+    · exact attrLinesOf_noLead hs hl indent rest p hp
+
+mutual
+theorem linesOf_noLead (hs : Gen.cliSanitizes = true) (hl : Gen.cliEscapesLead = true) :
+    (i : UInfo) → (d : Nat) → AllNoLead (linesOf i d)
+  | .mk ds as cs, d => by
+    intro p hp
+    simp only [linesOf, List.mem_cons, List.mem_append] at hp
+    rcases hp with rfl | hp | hp
+    · exact sanitizeLead_noLead hs hl ds
+    · exact attrLinesOf_noLead hs hl d as p hp
+    · exact linesOfList_noLead hs hl cs (d + 2) p hp
+theorem linesOfList_noLead (hs : Gen.cliSanitizes = true) (hl : Gen.cliEscapesLead = true) :
+    (cs : List UInfo) → (d : Nat) → AllNoLead (linesOfList cs d)
+  | [], _ => by intro p hp; simp [linesOfList] at hp
+  | c :: cs, d => by
+    intro p hp
+    simp only [linesOfList, List.mem_append] at hp
+    rcases hp with hp | hp
+    · exact linesOf_noLead hs hl c d p hp
+    · exact linesOfList_noLead hs hl cs d p hp
+end
+
+theorem leadingSpaces_spaces (n : Nat) (t : List Nat) (ht : NoLead t) : leadingSpaces (spaces n ++ t) = n := by
+  induction n with
+  | zero =>
+    simp only [spaces, List.replicate_zero, List.nil_append]
+    cases t with
+    | nil => rfl
+    | cons x t =>
+      have hx : isSpaceRune x = false := ht x rfl
+      have : x ≠ 32 := by intro e; subst e; revert hx; decide
+      unfold leadingSpaces
+      split
+      · next h => simp at h; exact absurd h.1 this
+      · rfl
+  | succ n ih =>
+    simp only [spaces, List.replicate_succ, List.cons_append, leadingSpaces] at ih ⊢
+    omega
+
+/-- every output line is its structural indent followed by text that does not start with white space: the indentation
+    of line k is EXACTLY what the structure prescribes -/
+theorem indent_exact (hs : Gen.cliSanitizes = true) (hl : Gen.cliEscapesLead = true) (i : UInfo) (d : Nat) :
+    ∀ k (h₁ : k < (splitLines (render i d) []).length) (h₂ : k < (layout i d).length),
+      (∃ t, (splitLines (render i d) [])[k] = spaces ((layout i d)[k]) ++ t ∧ NoLead t) ∧
+      leadingSpaces ((splitLines (render i d) [])[k]) = (layout i d)[k] := by
+  have e1 : splitLines (render i d) [] = (linesOf i d).map fun p => spaces p.1 ++ p.2 := by
+    rw [render_eq, splitLines_flat _ (linesOf_clean hs i d)]
+  have e2 : layout i d = (linesOf i d).map (·.1) := (linesOf_fst i d).symm
+  intro k h₁ h₂
+  have hk : k < (linesOf i d).length := by rw [e2] at h₂; simpa using h₂
+  have hn : NoLead ((linesOf i d)[k]).2 := linesOf_noLead hs hl i d _ (List.getElem_mem hk)
+  have a1 : (splitLines (render i d) [])[k] = spaces ((linesOf i d)[k]).1 ++ ((linesOf i d)[k]).2 := by
+    simp only [e1, List.getElem_map]
+  have a2 : (layout i d)[k] = ((linesOf i d)[k]).1 := by simp only [e2, List.getElem_map]
+  rw [a1, a2]
+  exact ⟨⟨_, rfl, hn⟩, leadingSpaces_spaces _ _ hn⟩
 
 theorem encode_no_c0 (r : Nat) (hr : isControlRune r = false) :
     ∀ b ∈ encodeRune r, ¬ (b < 0x20 ∨ b = 0x7F) := by
